@@ -11,7 +11,9 @@
  *
  * events (handles are queried inside the callbacks):
  *   @cs <1|0 handle non-NULL> | @ce <1|0>
- *   @bs <code|~> | @be <code|~> | @fs <code|~> | @fe <code|~>          ~ = NULL container handle
+ *   @bs <code|~> q:<ab|~> | @be … | @fs … | @fe …                      ~ = NULL container handle; ab = what
+ *                                                                       cif_container_assert_block(handle) answers inside the
+ *                                                                       callback (0 data block, CIF_ARGUMENT_ERROR save frame)
  *   @ls <n> <name>{n}                                                   names of the loop handle, in header order
  *   @le ~ | @le <n> <name>{n}                                           NULL handle, or names sorted by code unit
  *   @ps <1|0>                                                           packet handle non-NULL?
@@ -47,8 +49,9 @@ static void log_code(const char *tag, cif_container_tp *c) {
     UChar *code = NULL;
     flush_ws();
     fprintf(lg, " %s ", tag);
-    if (c == NULL) { fprintf(lg, "~"); return; }
+    if (c == NULL) { fprintf(lg, "~ q:~"); return; }
     if (cif_container_get_code(c, &code) == CIF_OK) { fhex(lg, code); free(code); } else fprintf(lg, "!");
+    fprintf(lg, " q:%d", cif_container_assert_block(c));
     {   /* exercise the handle a little more */
         cif_loop_tp **loops = NULL;
         if (cif_container_get_all_loops(c, &loops) == CIF_OK) { int i; for (i = 0; loops[i]; i++) cif_loop_free(loops[i]); free(loops); }
